@@ -165,7 +165,8 @@ func (c *c10v2Case) debit(a int) {
 		kind = "write4"
 		n := uint64(proto4.LeafSize * (1 + c.rng.Intn(8)))
 		c.seq++
-		data := bytes.Repeat([]byte{byte(c.seq), byte(c.seq >> 8), 0xC1}, int(n))[:n]
+		// a small set of distinct sectors (they are deduplicated by root): the volume is finite
+		data := bytes.Repeat([]byte{byte(c.seq % 6), 0xC1}, int(n))[:n]
 		usage = p.RPCWriteSectorCost(n)
 		var res rhp4.RPCWriteSectorResult
 		res, err = rhp4.RPCWriteSector(context.Background(), c.tr, p, c.token(a), bytes.NewReader(data), n)
@@ -415,7 +416,16 @@ func (c *c10v2Case) run(id int) {
 			i := c.pick()
 			switch r := c.rng.Intn(100); {
 			case r < 30:
-				c.debit(c.rng.Intn(len(c.accts)))
+				a := c.rng.Intn(len(c.accts))
+				if c.rng.Intn(4) > 0 { // mostly an account that holds something
+					for k := range c.accts {
+						if b, _ := c.hn.Contracts.AccountBalance(proto4.Account(c.accts[(a+k)%len(c.accts)].PublicKey())); !b.IsZero() {
+							a = (a + k) % len(c.accts)
+							break
+						}
+					}
+				}
+				c.debit(a)
 			case r < 55:
 				c.pay(i)
 			case r < 70:
